@@ -19,6 +19,11 @@ import (
 // multiplication/division by 1 or -1 mixes components (Inf*0 = NaN); x-0, x*1, x/1,
 // x*-1, x/-1 are exact for floats; everything listed for integers holds modulo 2^n.
 var identityTable = map[string][]string{
+	// boolean comparisons with a constant: x == true and x != false are x (exact: no evaluation is skipped)
+	"EQL/R/true/same":   {"Bool"},
+	"EQL/L/true/same":   {"Bool"},
+	"NEQ/R/false/same":  {"Bool"},
+	"NEQ/L/false/same":  {"Bool"},
 	"ADD/R/0/same":      {"Int", "Uint"},
 	"ADD/L/0/same":      {"Int", "Uint"},
 	"ADD/R/\"\"/same":   {"String"},
@@ -162,6 +167,7 @@ func ruleShortcuts(c *Ctx, short string, opExt map[*types.Func]string, rule stri
 		})
 	}
 	unclassified := 0
+	closedN := 0
 	for _, fn := range fns {
 		fkey := funcFullName(fn)
 		if only != nil && !only(fkey) {
@@ -236,11 +242,23 @@ func ruleShortcuts(c *Ctx, short string, opExt map[*types.Func]string, rule stri
 					tkey := fmt.Sprintf("%s/%s/%s/%s", op, side, nval, res)
 					valid := identityTable[tkey]
 					var reach []string
+					// categories that reach the rewrite: those named by an explicit guard of the condition if there is
+					// one (k == xr.Bool, IsCategory(...)), otherwise those of the kind switches of the function
+					base := cats
+					if len(onlyCats) > 0 {
+						base = onlyCats
+					}
 					if nval == `""` {
 						reach = []string{"String"}
 					} else {
-						for _, k := range []string{"Int", "Uint", "Float", "Complex"} {
-							if cats[k] && !excluded[k] && (len(onlyCats) == 0 || onlyCats[k]) {
+						for _, k := range []string{"Bool", "Int", "Uint", "Float", "Complex", "String"} {
+							if (k == "Bool" || k == "String") && nval != "true" && nval != "false" && len(onlyCats) == 0 {
+								continue // numeric tests never hold for a boolean or string constant
+							}
+							if (nval == "true" || nval == "false") && k != "Bool" && len(onlyCats) == 0 {
+								continue // .Bool() tests are reached by boolean constants only (reflect panics otherwise)
+							}
+							if base[k] && !excluded[k] {
 								reach = append(reach, k)
 							}
 						}
@@ -271,7 +289,79 @@ func ruleShortcuts(c *Ctx, short string, opExt map[*types.Func]string, rule stri
 			})
 		}
 		visit(fd.Body)
+		// closed world: an explicit replacement of the operation by an operand, a zero or a negation that is not
+		// under a recognised test on the constant operand is a shortcut nobody justified
+		var stack []ast.Node
+		ast.Inspect(fd.Body, func(n ast.Node) bool {
+			if n == nil {
+				stack = stack[:len(stack)-1]
+				return true
+			}
+			stack = append(stack, n)
+			if _, ok := n.(*ast.FuncLit); ok {
+				return true
+			}
+			ret, ok := n.(*ast.ReturnStmt)
+			if !ok || len(ret.Results) != 1 {
+				return true
+			}
+			for _, a := range stack {
+				if _, inLit := a.(*ast.FuncLit); inLit {
+					return true
+				}
+			}
+			res := ""
+			e := unparen(ret.Results[0])
+			if id := identOf(e); id != nil && id.Name != "nil" {
+				if o := info.Uses[id]; o == lastP || o == prevP {
+					res = "same"
+				}
+			} else if call, ok := e.(*ast.CallExpr); ok {
+				if fn := calleeOf(info, call); fn != nil {
+					switch {
+					case strings.Contains(fn.Name(), "Zero") && fn.Pkg() == pk.Types:
+						res = "zero"
+					case fn.Name() == "UnaryMinus":
+						res = "neg"
+					case strings.HasSuffix(fn.Name(), "ForSideEffects"):
+						res = "same"
+					}
+				}
+			}
+			if res == "" {
+				return true
+			}
+			// +x is x for every numeric kind: the unary plus compiler returns its operand unconditionally
+			if res == "same" && op == "ADD" && len(params) == 2 && fn.Name() == "UnaryPlus" {
+				closedN++
+				return true
+			}
+			// && and || are judged path by path by A7b
+			if op == "LAND" || op == "LOR" {
+				return true
+			}
+			recognised := false
+			for i := len(stack) - 2; i >= 0 && !recognised; i-- {
+				ifs, ok := stack[i].(*ast.IfStmt)
+				if !ok || !containsNode(ifs.Body, ret) {
+					continue
+				}
+				for _, disj := range orAtoms(ifs.Cond) {
+					for _, a := range andAtoms(disj) {
+						if _, _, ok := literalTest(info, a); ok {
+							recognised = true
+						}
+					}
+				}
+			}
+			closedN++
+			if !recognised {
+				c.Ob(rule+"-closed", fmt.Sprintf("%s/return@%s", fkey, exprString(e)), ret, false, fmt.Sprintf("the %s operation is replaced by %q under a condition that is not a recognised test on the constant operand: an unreviewed shortcut", op, res))
+			}
+			return true
+		})
 	}
+	c.Ob(rule+"-closed", short+"/all-rewrites-recognised", nil, closedN > 0, fmt.Sprintf("%d explicit replacements of an operation by an operand, zero or negation: each is under a recognised test on the constant operand, or reported separately", closedN))
 	c.Extra(rule+"_unclassified", unclassified)
 }
 
@@ -289,6 +379,17 @@ func literalTest(info *types.Info, atom ast.Expr) (ast.Expr, string, bool) {
 		if fn := calleeOf(info, x); fn != nil && fn.Name() == "isLiteralNumber" && len(x.Args) == 2 {
 			if v, ok := constInt(info, x.Args[1]); ok {
 				return x.Args[0], fmt.Sprint(v), true
+			}
+		}
+		if sel, ok := unparen(x.Fun).(*ast.SelectorExpr); ok && sel.Sel.Name == "Bool" && len(x.Args) == 0 && isReflectValue(info.TypeOf(sel.X)) {
+			return sel.X, "true", true
+		}
+	case *ast.UnaryExpr:
+		if x.Op == token.NOT {
+			if call, ok := unparen(x.X).(*ast.CallExpr); ok {
+				if sel, ok := unparen(call.Fun).(*ast.SelectorExpr); ok && sel.Sel.Name == "Bool" && len(call.Args) == 0 && isReflectValue(info.TypeOf(sel.X)) {
+					return sel.X, "false", true
+				}
 			}
 		}
 	case *ast.BinaryExpr:
@@ -384,6 +485,17 @@ func categoryGuards(info *types.Info, guards []ast.Expr) (excluded, only map[str
 	for _, g := range guards {
 		switch x := unparen(g).(type) {
 		case *ast.BinaryExpr:
+			// k == xr.Bool with k a reflect.Kind
+			if (x.Op == token.EQL || x.Op == token.NEQ) && isReflectKind(typeOrInvalid(info, x.X)) {
+				if k := catOf(x.Y); k != "" {
+					if x.Op == token.EQL {
+						only[k] = true
+					} else {
+						excluded[k] = true
+					}
+				}
+				continue
+			}
 			call, ok := unparen(x.X).(*ast.CallExpr)
 			if !ok {
 				continue
@@ -411,4 +523,279 @@ func categoryGuards(info *types.Info, guards []ast.Expr) (excluded, only map[str
 		}
 	}
 	return
+}
+
+// A7b — && and || with a constant operand. The compile functions of the short-circuit operators fold constant
+// operands. Go's semantics fix both the value and which operand is evaluated: the left operand is always evaluated;
+// the right one only if the left does not decide. Decided by enumerating the sixteen combinations of (x constant?,
+// its value, y constant?, its value) through the if-structure of Land and Lor (the flags come from the three results
+// of Expr.TryAsPred: value, closure — nil for a constant —, error) and comparing what is returned with the table:
+//   x constant:               x && y = y if x else false        x || y = true if x else y      (y never evaluated early)
+//   x not constant, y constant: x && true = x, x && false must still evaluate x; x || false = x, x || true must still evaluate x
+//   neither constant:         a closure computing x(env) op y(env) with Go's own short-circuit operator.
+func ruleBoolShortcuts(c *Ctx, rule string) {
+	pk := c.P.Pkg("fast")
+	info := pk.TypesInfo
+	for _, spec := range []struct {
+		fk string
+		op token.Token
+	}{{"fast.Comp.Land", token.LAND}, {"fast.Comp.Lor", token.LOR}} {
+		fd := c.P.Func(spec.fk)
+		if fd == nil || fd.Body == nil || len(fd.Type.Params.List) < 2 {
+			c.Ob(rule, spec.fk, nil, false, "anchor function not found")
+			continue
+		}
+		var params []types.Object
+		for _, f := range fd.Type.Params.List {
+			for _, nm := range f.Names {
+				params = append(params, info.Defs[nm])
+			}
+		}
+		xP, yP := params[len(params)-2], params[len(params)-1]
+		// flags: results of X.TryAsPred()
+		type flagT struct {
+			side string // "x" or "y"
+			kind string // "val", "fun", "err"
+		}
+		flags := map[types.Object]flagT{}
+		ast.Inspect(fd.Body, func(n ast.Node) bool {
+			as, ok := n.(*ast.AssignStmt)
+			if !ok || len(as.Rhs) != 1 || len(as.Lhs) != 3 {
+				return true
+			}
+			call, ok := unparen(as.Rhs[0]).(*ast.CallExpr)
+			if !ok {
+				return true
+			}
+			sel, ok := unparen(call.Fun).(*ast.SelectorExpr)
+			if !ok || sel.Sel.Name != "TryAsPred" {
+				return true
+			}
+			side := ""
+			switch usedObj(info, sel.X) {
+			case xP:
+				side = "x"
+			case yP:
+				side = "y"
+			}
+			if side == "" {
+				return true
+			}
+			for i, k := range []string{"val", "fun", "err"} {
+				if id := identOf(as.Lhs[i]); id != nil && id.Name != "_" {
+					flags[info.Defs[id]] = flagT{side, k}
+				}
+			}
+			return true
+		})
+		if len(flags) < 4 {
+			c.Ob(rule, spec.fk, fd, false, "the flags of Expr.TryAsPred for both operands were not found")
+			continue
+		}
+		type asg struct{ xc, xv, yc, yv bool }
+		var evalCond func(e ast.Expr, a asg) (bool, bool)
+		evalCond = func(e ast.Expr, a asg) (bool, bool) {
+			switch x := unparen(e).(type) {
+			case *ast.Ident:
+				if f, ok := flags[info.Uses[x]]; ok {
+					switch f.kind {
+					case "val":
+						if f.side == "x" {
+							return a.xv, true
+						}
+						return a.yv, true
+					case "err":
+						return false, true
+					}
+				}
+			case *ast.UnaryExpr:
+				if x.Op == token.NOT {
+					v, ok := evalCond(x.X, a)
+					return !v, ok
+				}
+			case *ast.BinaryExpr:
+				switch x.Op {
+				case token.LAND, token.LOR:
+					l, ok1 := evalCond(x.X, a)
+					r, ok2 := evalCond(x.Y, a)
+					if !ok1 || !ok2 {
+						return false, false
+					}
+					if x.Op == token.LAND {
+						return l && r, true
+					}
+					return l || r, true
+				case token.EQL, token.NEQ:
+					if id := identOf(x.X); id != nil && identOf(x.Y) != nil && identOf(x.Y).Name == "nil" {
+						if f, ok := flags[info.Uses[id]]; ok && f.kind == "fun" {
+							isConst := a.xc
+							if f.side == "y" {
+								isConst = a.yc
+							}
+							if x.Op == token.EQL {
+								return isConst, true
+							}
+							return !isConst, true
+						}
+					}
+				}
+			}
+			return false, false
+		}
+		// term of a closure body: X, Y, T, F, (a && b), (a || b)
+		var term func(e ast.Expr) string
+		term = func(e ast.Expr) string {
+			switch x := unparen(e).(type) {
+			case *ast.Ident:
+				if x.Name == "true" {
+					return "T"
+				}
+				if x.Name == "false" {
+					return "F"
+				}
+			case *ast.CallExpr:
+				if id := identOf(x.Fun); id != nil {
+					if f, ok := flags[info.Uses[id]]; ok && f.kind == "fun" {
+						return strings.ToUpper(f.side)
+					}
+				}
+			case *ast.BinaryExpr:
+				if x.Op == token.LAND || x.Op == token.LOR {
+					return "(" + term(x.X) + " " + x.Op.String() + " " + term(x.Y) + ")"
+				}
+			}
+			return "?"
+		}
+		classify := func(e ast.Expr) string {
+			e = unparen(e)
+			if id := identOf(e); id != nil {
+				switch info.Uses[id] {
+				case xP:
+					return "X"
+				case yP:
+					return "Y"
+				}
+				return "?"
+			}
+			call, ok := e.(*ast.CallExpr)
+			if !ok {
+				return "?"
+			}
+			fn := calleeOf(info, call)
+			if fn == nil {
+				return "?"
+			}
+			switch fn.Name() {
+			case "exprValue":
+				if len(call.Args) == 2 {
+					if tv, ok := info.Types[call.Args[1]]; ok && tv.Value != nil {
+						if tv.Value.String() == "true" {
+							return "T"
+						}
+						if tv.Value.String() == "false" {
+							return "F"
+						}
+					}
+				}
+			case "exprBool":
+				if len(call.Args) == 1 {
+					if lit, ok := unparen(call.Args[0]).(*ast.FuncLit); ok && len(lit.Body.List) == 1 {
+						if r, ok := lit.Body.List[0].(*ast.ReturnStmt); ok && len(r.Results) == 1 {
+							return term(r.Results[0])
+						}
+					}
+				}
+			}
+			return "?"
+		}
+		var run func(list []ast.Stmt, a asg) (string, ast.Node, bool)
+		run = func(list []ast.Stmt, a asg) (string, ast.Node, bool) {
+			for _, st := range list {
+				switch x := st.(type) {
+				case *ast.ReturnStmt:
+					if len(x.Results) == 1 {
+						return classify(x.Results[0]), x, true
+					}
+					return "?", x, true
+				case *ast.IfStmt:
+					v, ok := evalCond(x.Cond, a)
+					if !ok {
+						return "?cond:" + exprString(x.Cond), x, true
+					}
+					if v {
+						if r, n, done := run(x.Body.List, a); done {
+							return r, n, true
+						}
+					} else if x.Else != nil {
+						var el []ast.Stmt
+						if b, ok := x.Else.(*ast.BlockStmt); ok {
+							el = b.List
+						} else {
+							el = []ast.Stmt{x.Else}
+						}
+						if r, n, done := run(el, a); done {
+							return r, n, true
+						}
+					}
+				}
+			}
+			return "", nil, false
+		}
+		opS := spec.op.String()
+		for _, a := range []asg{
+			{true, true, false, false}, {true, false, false, false}, {true, true, true, true}, {true, true, true, false}, {true, false, true, true}, {true, false, true, false},
+			{false, false, true, true}, {false, false, true, false}, {false, false, false, false},
+		} {
+			got, at, _ := run(fd.Body.List, a)
+			var want []string
+			switch {
+			case a.xc && spec.op == token.LAND:
+				if a.xv {
+					want = []string{"Y", "Y"}
+					if a.yc {
+						want = []string{"Y", map[bool]string{true: "T", false: "F"}[a.yv]}
+					}
+				} else {
+					want = []string{"F"}
+				}
+			case a.xc && spec.op == token.LOR:
+				if a.xv {
+					want = []string{"T"}
+				} else {
+					want = []string{"Y"}
+					if a.yc {
+						want = []string{"Y", map[bool]string{true: "T", false: "F"}[a.yv]}
+					}
+				}
+			case a.yc && spec.op == token.LAND:
+				if a.yv {
+					want = []string{"X", "(X && T)"}
+				} else {
+					want = []string{"(X && F)"}
+				}
+			case a.yc && spec.op == token.LOR:
+				if a.yv {
+					want = []string{"(X || T)"}
+				} else {
+					want = []string{"X", "(X || F)"}
+				}
+			default:
+				want = []string{"(X " + opS + " Y)"}
+			}
+			good := false
+			for _, w := range want {
+				if got == w {
+					good = true
+				}
+			}
+			name := func(cst, v bool, s string) string {
+				if !cst {
+					return s
+				}
+				return fmt.Sprint(v)
+			}
+			key := fmt.Sprintf("%s/%s %s %s", spec.fk, name(a.xc, a.xv, "x"), opS, name(a.yc, a.yv, "y"))
+			c.Ob(rule, key, at, good, fmt.Sprintf("compiled to %s; Go's value and evaluation order allow %v (X, Y: the operand itself or a call of its closure; T, F: constants)", got, want))
+		}
+	}
 }
